@@ -97,4 +97,74 @@ minutes, possibly decreasing or jumping), the minutes captured are the largest r
 never negative -/
 def captured (ticks : List Int) : Int := ticks.foldl (fun c t => if t - c > 0 then c + (t - c) else c) 0
 
+/-! ### start / stop / switch / pause -/
+
+/-- the record whose summary `--resume` falls back to: the latest date strictly before `d`,
+the first in file order among records of that date -/
+def previousOf (rs : List Record) (d : Date) : Option Record :=
+  (rs.filter (fun r => !dateLe d r.date)).foldl (fun (best : Option Record) r =>
+    match best with
+    | none => some r
+    | some b => if dateLe b.date r.date && !dateLe r.date b.date then some r else some b) none
+
+/-- the summary `--summary` / `--resume` / `--resume-nth` select; `none` = the flags conflict or
+the entry to resume does not exist -/
+def chosenSummary (text : Option (List (List Char))) (resume : Bool) (nth : Int) (cur : Record) (prev : Option Record) :
+    Option (List (List Char)) :=
+  if text.isSome && (resume || nth != 0) then none
+  else if resume && nth != 0 then none
+  else match text with
+    | some t => some t
+    | none =>
+      if resume then
+        match cur.entries.getLast? with
+        | some e => some e.summary
+        | none => match prev.bind (fun p => p.entries.getLast?) with
+          | some e => some e.summary
+          | none => some []
+      else if nth != 0 then
+        let n : Int := cur.entries.length
+        let i : Int := if nth > 0 then nth - 1 else n + nth
+        if i < 0 || i > n - 1 then none else (cur.entries[i.toNat]?).map (·.summary)
+      else some []
+
+/-- an entry summary as it is read back: at least one (possibly empty) line -/
+def normSummary (s : List (List Char)) : List (List Char) := if s.isEmpty then [[]] else s
+
+/-- `start`: one open range starting at `t` with the chosen summary is added to the record for
+`d` (created at its position when absent) -/
+def Start (rs : List Record) (d : Date) (cfgShould : Option Int) (t : Time) (sm : List (List Char)) (rs' : List Record) : Prop :=
+  AddEntry rs d cfgShould ⟨.openRange t true 0, normSummary sm⟩ rs'
+
+/-- `stop` on record `i`: its open range becomes a range ending at `t`, extra summary appended -/
+def Stop (rs : List Record) (i : Nat) (t : Time) (add : List (List Char)) (rs' : List Record) : Prop :=
+  ∃ r r', rs[i]? = some r ∧ CloseAt r t add r' ∧ ReplaceAt rs i r' rs'
+
+/-- `switch` on record `i`: stop at `t` without summary, then start at the same `t` -/
+def Switch (rs : List Record) (i : Nat) (t : Time) (sm : List (List Char)) (rs' : List Record) : Prop :=
+  ∃ r r1 e', rs[i]? = some r ∧ CloseAt r t [] r1 ∧ SameEntry e' ⟨.openRange t true 0, normSummary sm⟩ ∧
+    ReplaceAt rs i { r1 with entries := r1.entries ++ [e'] } rs'
+
+/-- `pause` (without --extend) on record `i`: a duration entry of `-mins` minutes with the given
+summary is added at the end; `tags` (the tags of the open range's summary, as klog writes them) are
+appended to its last line -/
+def pauseSummary (summary : List (List Char)) (tags : Option (List Char)) : List (List Char) :=
+  let s := normSummary summary
+  match tags with
+  | none => s
+  | some tg => match s with
+    | [[]] => [tg]
+    | _ => s.dropLast ++ [(s.getLast?.getD []) ++ [' '] ++ tg]
+
+def PauseAppend (rs : List Record) (i : Nat) (mins : Int) (sm : List (List Char)) (rs' : List Record) : Prop :=
+  ∃ r e', rs[i]? = some r ∧ r.hasOpen = true ∧ SameEntry e' ⟨.dur ⟨-mins, false, 0⟩, sm⟩ ∧
+    ReplaceAt rs i { r with entries := r.entries ++ [e'] } rs'
+
+/-- `pause --extend` / a tick: the last non-positive duration entry of record `i` decreases by
+`mins`; nothing else changes -/
+def PauseExtend (rs : List Record) (i : Nat) (mins : Int) (rs' : List Record) : Prop :=
+  ∃ r pre post d sm e', rs[i]? = some r ∧ r.hasOpen = true ∧ r.entries = pre ++ ⟨.dur d, sm⟩ :: post ∧ d.mins ≤ 0 ∧
+    (∀ p ∈ post, match p.val with | .dur x => x.mins > 0 | _ => True) ∧
+    SameEntry e' ⟨.dur ⟨d.mins - mins, false, 0⟩, sm⟩ ∧ ReplaceAt rs i { r with entries := pre ++ e' :: post } rs'
+
 end KlogV.Spec
